@@ -3,10 +3,12 @@ import re, itertools
 from vlib import core
 
 PROP = 'C11'
-MODULES = ['PistacheModel.Props.C11']
+MODULES = ['PistacheModel.Props.C11', 'PistacheModel.Props.C11Global']
 THEOREMS = ['Pistache.Promise.Props.' + t for t in (
     'reject_step_no_call', 'resolve_step_call', 'resolve_step_guard', 'reject_step_guard', 'late_resolve_silent', 'late_reject_silent',
-    'then_on_fulfilled_runs_now', 'then_on_rejected_runs_now')]
+    'then_on_fulfilled_runs_now', 'then_on_rejected_runs_now')] + \
+           ['Pistache.Promise.Props.' + t for t in ('inv_execAll', 'fulfil_at_most_once', 'reject_at_most_once', 'counters_bounded')] + \
+           ['Pistache.Promise.' + t for t in ('inv_step', 'inv_run')]
 
 class Builder:
     """builds a well-typed program: tracks which promise ids exist, their C++ type, and which may still be used"""
